@@ -594,6 +594,14 @@ REGRESSION = [
     "def f():\n    x = 10 ** 5000\n    return x.nope\n",
     # name-mangled attribute read on a super() object (ClassAttributeChecker)
     "class C:\n    def f(self):\n        return super().__nope\n",
+    # zero-argument super() in a function nested in a method whose first parameter has a literal default
+    "class C0:\n    def odd(q: int = 1):\n        def helper():\n            return super().nope\n        return helper\n",
+    # generator whose declared return type mentions a ParamSpec callable
+    "from typing import Callable, ParamSpec, TypeVar\nP = ParamSpec('P'); T = TypeVar('T')\ndef helper(*, s) -> list[Callable[P, T]]:\n    yield 'ab'\n",
+    # attribute of `T or x` for a constrained type variable
+    "def f0[T: (int, str)](x):\n    return (T or x).attr\n",
+    # two consecutive yields, the first inside an augmented assignment to an attribute
+    "def f0(x):\n    g = x\n    g.x %= (yield)\n    y = (yield 1)\n",
     # Callable with a ParamSpec inside the parameter list
     "from typing import Callable, ParamSpec\nP = ParamSpec('P')\ndef f(x: Callable[[P, int], int]): pass\n",
 ]
